@@ -15,6 +15,7 @@ import (
 	"os"
 	"path/filepath"
 	"runtime/pprof"
+	"time"
 
 	"com.tuntun.rangers/node/src/core"
 	"com.tuntun.rangers/node/src/middleware/types"
@@ -32,6 +33,99 @@ type op struct {
 	Op  string `json:"op"`            // Add | Remove | Restart | Fork (G = common ancestor)
 	G   int    `json:"g,omitempty"`   // id index for Add
 	Pre int    `json:"pre,omitempty"` // claimed predecessor (98: the current last)
+	// Conc: AddGroup(G, Pre) overlaps with B (an add or a removal); First = whose locked section runs first
+	B     *opB   `json:"b,omitempty"`
+	First string `json:"first,omitempty"`
+}
+
+type opB struct {
+	Op  string `json:"op"`
+	G   int    `json:"g"`
+	Pre int    `json:"pre"`
+}
+
+// concurrent runs AddGroup(a) so that it overlaps with b: both calls pass their unlocked id check
+// and wait inside consensusHelper.CheckGroup (parked by the stub) before the first of them takes
+// the chain lock. A removal (removeFromCommonAncestor down to the predecessor of the last group)
+// has no unlocked part: "first = b" runs it while a is parked.
+func concurrent(o op) (okA, okB bool) {
+	gc := core.GetGroupChain()
+	ga := mkGroup(o.G, idOf(o.Pre))
+	var gb *types.Group
+	if o.B.Op == "Add" {
+		gb = mkGroup(o.B.G, idOf(o.B.Pre))
+	}
+	gate := map[*types.Group]chan struct{}{ga: make(chan struct{})}
+	if gb != nil {
+		gate[gb] = make(chan struct{})
+	}
+	reached := make(chan *types.Group, 2)
+	helper.CheckGroupFn = func(g *types.Group) (bool, error) {
+		if ch, ok := gate[g]; ok {
+			reached <- g
+			<-ch
+		}
+		return true, nil
+	}
+	defer func() { helper.CheckGroupFn = nil }()
+	type call struct {
+		g      *types.Group
+		res    chan error
+		parked bool
+		done   bool
+		err    error
+	}
+	start := func(g *types.Group) *call {
+		c := &call{g: g, res: make(chan error, 1)}
+		go func() { c.res <- gc.AddGroup(g) }()
+		select {
+		case <-reached:
+			c.parked = true
+		case c.err = <-c.res: // refused by the unlocked id check
+			c.done = true
+		case <-time.After(20 * time.Second):
+			vutil.Fatalf("AddGroup neither parked nor returned")
+		}
+		return c
+	}
+	finish := func(c *call) bool {
+		if !c.done {
+			close(gate[c.g])
+			select {
+			case c.err = <-c.res:
+				c.done = true
+			case <-time.After(20 * time.Second):
+				vutil.Fatalf("AddGroup did not return")
+			}
+		}
+		return c.err == nil
+	}
+	ca := start(ga)
+	if gb != nil {
+		cb := start(gb)
+		if o.First == "a" {
+			okA = finish(ca)
+			okB = finish(cb)
+		} else {
+			okB = finish(cb)
+			okA = finish(ca)
+		}
+		return
+	}
+	remove := func() bool {
+		if bytes.Equal(gc.LastGroup().Id, genesis.Id) {
+			return false
+		}
+		return core.VerifRemoveLastGroup()
+	}
+	if o.First == "a" {
+		okA = finish(ca)
+		okB = remove()
+	} else {
+		okB = remove()
+		okA = finish(ca)
+	}
+	return
 }
 
 var (
@@ -244,6 +338,13 @@ func main() {
 					ok = core.VerifGroupForkSwitch(anc, branch)
 				}
 				tr.Emit(map[string]interface{}{"event": "Fork", "g": o.G, "ids": o.Ids, "ok": ok, "state": project()})
+			case "Conc":
+				if int(gc.Count()) >= maxCount-1 {
+					continue
+				}
+				okA, okB := concurrent(o)
+				tr.Emit(map[string]interface{}{"event": "Conc", "g": o.G, "pre": o.Pre, "b": o.B, "first": o.First,
+					"okA": okA, "okB": okB, "state": project()})
 			case "Restart":
 				core.VerifCloseGroupChain()
 				core.VerifInitGroupChain(helper)
